@@ -357,6 +357,7 @@ class Default(TMGRStagingInputComponent):
         # make sure tarball is flushed to disk
         if tar_file:
             tar_file.close()
+            tmp_file.close()
 
         new_actionables = expand_staging_directives(new_actionables,
                                             src_context, tgt_context, self._log)
